@@ -3,6 +3,7 @@
 computes the model's answer, compares, evaluates the spec oracles on the implementation's answer,
 prints every disagreement / oracle failure and a per-family summary.
 -/
+import Std.Data.HashSet
 import TzVerif.Driver.Codec
 import TzVerif.Spec.Oracles
 
@@ -11,8 +12,14 @@ open TzVerif TzVerif.Model TzVerif.Driver
 structure Stats where
   lines : Nat := 0
   disagree : Nat := 0
+  disagreeErrKind : Nat := 0
+  panics : Nat := 0
   oracleFail : Nat := 0
   oracleRuns : Nat := 0
+  nonErr : Nat := 0
+  distinct : Std.HashSet UInt64 := {}
+  distinctNonErr : Nat := 0
+  errKinds : List (String × Nat) := []
   deriving Inhabited
 
 structure St where
@@ -218,13 +225,32 @@ def processLine (st : St) (line : String) : St × List String :=
           | some z => { st with zone := z, zoneLine := line }
           | none => st
         let dis := out.model != rhs
+        let isPanic := rhs == "PANIC"
+        let implErr := rhs.startsWith "Err"
+        let errKindOnly := dis && !isPanic && implErr && out.model.startsWith "Err"
         let fails := out.oracles.filter (fun o => !o.2)
+        let h := hash line
+        let first := (st.stats.find? (·.1 == fam)).map (·.2.lines) |>.getD 0
         let st := bump st fam fun s =>
-          { lines := s.lines + 1, disagree := s.disagree + (if dis then 1 else 0),
-            oracleFail := s.oracleFail + fails.length, oracleRuns := s.oracleRuns + out.oracles.length }
+          let isNew := !s.distinct.contains h
+          let ek := if implErr then (rhs.splitOn " ").headD "" else ""
+          let rec addKind : List (String × Nat) → List (String × Nat)
+            | [] => [(ek, 1)]
+            | (k, n) :: rest => if k == ek then (k, n + 1) :: rest else (k, n) :: addKind rest
+          { lines := s.lines + 1,
+            disagree := s.disagree + (if dis && !errKindOnly && !isPanic then 1 else 0),
+            disagreeErrKind := s.disagreeErrKind + (if errKindOnly then 1 else 0),
+            panics := s.panics + (if isPanic then 1 else 0),
+            oracleFail := s.oracleFail + fails.length, oracleRuns := s.oracleRuns + out.oracles.length,
+            nonErr := s.nonErr + (if implErr then 0 else 1),
+            distinct := if isNew then s.distinct.insert h else s.distinct,
+            distinctNonErr := s.distinctNonErr + (if isNew && !implErr then 1 else 0),
+            errKinds := if implErr then addKind s.errKinds else s.errKinds }
         let zoneCtx := if st.zoneLine.isEmpty || out.newZone.isSome then "" else s!" @@ {st.zoneLine}"
-        let msgs := (if dis then [s!"DISAGREE {line} || model={out.model}{zoneCtx}"] else []) ++
-          fails.map (fun o => s!"ORACLE-FAIL {o.1} {line}{zoneCtx}")
+        let tag := if isPanic then "PANIC" else if errKindOnly then "DISAGREE-ERRKIND" else "DISAGREE"
+        let msgs := (if dis then [s!"{tag} {line} || model={out.model}{zoneCtx}"] else []) ++
+          fails.map (fun o => s!"ORACLE-FAIL {o.1} {line}{zoneCtx}") ++
+          (if first < 3 then [s!"SAMPLE {line.take 400}"] else [])
         (st, msgs)
 
 partial def loop (h : IO.FS.Stream) (out : IO.FS.Stream) (st : St) : IO St := do
@@ -243,5 +269,6 @@ def main : IO Unit := do
   let stdout ← IO.getStdout
   let st ← loop stdin stdout {}
   for (fam, s) in st.stats do
-    stdout.putStrLn s!"SUMMARY family={fam} lines={s.lines} disagree={s.disagree} oracle_runs={s.oracleRuns} oracle_fail={s.oracleFail}"
+    let kinds := s.errKinds.foldl (fun acc (k, n) => acc ++ s!"{k}:{n},") ""
+    stdout.putStrLn s!"SUMMARY family={fam} lines={s.lines} disagree={s.disagree} disagree_errkind={s.disagreeErrKind} panics={s.panics} oracle_runs={s.oracleRuns} oracle_fail={s.oracleFail} non_err={s.nonErr} distinct={s.distinct.size} distinct_non_err={s.distinctNonErr} err_kinds={kinds}"
   stdout.putStrLn s!"SUMMARY-END bad_lines={st.badLines}"
